@@ -268,6 +268,26 @@ def thresholds(repo, rep):
         rep.ok("R-C19-4", f"{fi.file} match_consecutive_partitions", "((d1 - d0) + 180) % 360 - 180", "direction change taken the short way round")
     else:
         rep.fail("R-C19-4", fi.file, fi.node.lineno, fi.qualname, "ddpm", "the peak-direction change must be the circular difference")
+    # wind-sea threshold: scaling * (predicted new peak frequency) - fp : the scaling multiplies the prediction only
+    from ..astutil import returns as _rets2, signed_terms as _terms, factors as _factors
+    fw = repo.func(f"{MOD}.dfp_wsea")
+    rv = _rets2(fw.node)
+    okw = False
+    if len(rv) == 1:
+        ts = _terms(rv[0][1])
+        # terms() -> [(sign, expr)]
+        plus = [e_ for sg, e_ in ts if sg > 0]
+        minus = [e_ for sg, e_ in ts if sg < 0]
+        if len(plus) == 1 and len(minus) == 1 and unparse(minus[0]) == "fp":
+            fs = [unparse(f_) for f_ in _factors(plus[0])]
+            okw = "scaling" in fs and not any(isinstance(x, ast.Name) and x.id == "scaling" for f_ in _factors(plus[0]) if unparse(f_) != "scaling" for x in ast.walk(f_))
+    if okw:
+        rep.ok("R-C19-4", f"{fw.file}:{rv[0][0].lineno} dfp_wsea", unparse(rv[0][1])[:70], "scaling * predicted fp  -  fp")
+    else:
+        rep.fail("R-C19-4", fw.file, fw.node.lineno, fw.qualname, unparse(rv[0][1])[:100] if rv else "return",
+                 "the wind-sea frequency-change threshold is scaling * fp_predicted - fp: with the scaling applied to the difference (or to fp) a "
+                 "scaling != 1 shifts the admissible range and identifiers are carried across drops that exceed the true threshold",
+                 anchor="dfp_wsea:scaling-term")
     # time alignment in the driver
     p = repo.func(f"{MOD}.np_track_partitions")
     for n in ast.walk(p.node):
